@@ -70,6 +70,12 @@ def cases(tier, seed):
                         if k == 1 and keys != 'asc':
                             continue
                         yield dict(kind='xform', obj=o, seq=[menu[i] for i in seq], tagged=list(tagged), keys=keys)
+    # objects with the smallest segment counts (1..3 segments: 2..4 segment ends, a 3 x 3 coordinate array among them)
+    for o in ('wire1', 'wire2', 'helix2', 'helix3', 'arc3'):
+        for k in (1, 2):
+            for seq in itertools.product(range(len(menu)), repeat=k):
+                for tagged in ((False,) * k, (True,) * k):
+                    yield dict(kind='xform', obj=o, seq=[menu[i] for i in seq], tagged=list(tagged), keys='asc')
 
 
 def seg_arrays(g):
@@ -266,6 +272,11 @@ def evaluate(c):
             'taper3': dict(kind='wire', p1=[0.1, 0.2, 0.3], p2=[1.3, -0.4, 0.9], n=10, r=2e-3, taper=[3]),
             'arc': dict(kind='arc', n=6, radius=0.7, ang1=20., ang2=250., r=1e-3),
             'helix': dict(kind='helix', n=12, length=-0.8, turnlen=0.3, r=1e-3, radii=[0.2, 0.1, 0.05, 0.15]),
+            'wire1': dict(kind='wire', p1=[0.1, 0.2, 0.3], p2=[0.5, -0.1, 0.6], n=1, r=1e-3),
+            'wire2': dict(kind='wire', p1=[0.1, 0.2, 0.3], p2=[0.9, -0.2, 0.7], n=2, r=1e-3),
+            'helix2': dict(kind='helix', n=2, length=0.1, turnlen=0.2, r=1e-3, radii=[0.05, 0.04]),
+            'helix3': dict(kind='helix', n=3, length=0.15, turnlen=0.2, r=1e-3, radii=[0.05, 0.04, 0.03, 0.06]),
+            'arc3': dict(kind='arc', n=3, radius=0.4, ang1=10., ang2=150., r=1e-3),
         }
         base = dict(f=10.0, env='free', wires=[dict(kind='wire', p1=[5., 5., 5.], p2=[5., 5., 6.], n=2, r=1e-3), objs[o]])
         seq = c['seq']
